@@ -1329,6 +1329,82 @@ theorem key_collision_witness :
 /-- names without the separator cannot collide — e.g. the wave-1 name tables. -/
 example : keysDistinct ["active", "s1", "s2"] ["x", "k", "nm", "y"] = true := by decide
 
+/-! ### wave 9: a scenario reads its own statistics iff the collectors are different objects -/
+
+section Collectors
+variable {α : Type}
+
+theorem lookupA_filter_ne {β : Type} (c c' : Nat) : ∀ st : List (Nat × β),
+    lookupA (st.filter (fun x => !decide (x.1 = c))) c' = if c' = c then none else lookupA st c' := by
+  intro st
+  induction st with
+  | nil => simp [lookupA]
+  | cons x rest ih =>
+    obtain ⟨k, v⟩ := x
+    by_cases hk : k = c
+    · subst hk
+      by_cases hc : c' = k
+      · subst hc; simp [lookupA, ih]
+      · have : ¬ k = c' := fun e => hc e.symm
+        simp [lookupA, ih, hc, this]
+    · by_cases hc : c' = c
+      · subst hc
+        have : ¬ k = c' := hk
+        simp [List.filter_cons, hk, lookupA, ih, this]
+      · by_cases hkc : k = c'
+        · subst hkc; simp [List.filter_cons, hk, lookupA]
+        · simp [List.filter_cons, hk, lookupA, ih, hc, hkc]
+
+theorem lookupA_writeRun (st : Store α) (c c' : Nat) (h : History α) :
+    lookupA (writeRun st c h) c' = if c = c' then some h else lookupA st c' := by
+  by_cases hc : c = c'
+  · simp [writeRun, lookupA, hc]
+  · have hc' : ¬ c' = c := fun e => hc e.symm
+    simp [writeRun, lookupA, hc, lookupA_filter_ne, hc']
+
+theorem foldl_writeRun_other (c : Nat) : ∀ (runs : List (Nat × History α)) (st : Store α),
+    c ∉ runs.map (·.1) → lookupA (runs.foldl (fun st x => writeRun st x.1 x.2) st) c = lookupA st c := by
+  intro runs
+  induction runs with
+  | nil => intro st _; rfl
+  | cons x rest ih =>
+    intro st hc
+    simp only [List.map_cons, List.mem_cons, not_or] at hc
+    rw [List.foldl_cons, ih _ hc.2, lookupA_writeRun]
+    have : ¬ x.1 = c := fun e => hc.1 e.symm
+    simp [this]
+
+theorem foldl_writeRun_own : ∀ (runs : List (Nat × History α)) (st : Store α), (runs.map (·.1)).Nodup →
+    ∀ x ∈ runs, lookupA (runs.foldl (fun st x => writeRun st x.1 x.2) st) x.1 = some x.2 := by
+  intro runs
+  induction runs with
+  | nil => intro st _ x hx; simp at hx
+  | cons y rest ih =>
+    intro st hnd x hx
+    simp only [List.map_cons, List.nodup_cons] at hnd
+    rw [List.foldl_cons]
+    rcases List.mem_cons.mp hx with rfl | hx
+    · rw [foldl_writeRun_other _ rest _ hnd.1, lookupA_writeRun]; simp
+    · exact ih _ hnd.2 x hx
+
+/-- **own statistics.** When the collectors are pairwise different objects, every scenario — whatever the order in
+which the scenarios were simulated (the runner's threads) — reads exactly the history of its own run. -/
+theorem reads_own (runs : List (Nat × History α)) (hnd : (runs.map (·.1)).Nodup) :
+    ∀ x ∈ runs, readStats (runAll runs) x.1 = x.2 := by
+  intro x hx
+  simp [readStats, runAll, foldl_writeRun_own runs [] hnd x hx]
+
+end Collectors
+
+/-- witness for a shared collector: two scenarios with different populations writing into ONE collector — the
+scenario simulated first reads the other one's statistics (count 2 instead of 1). -/
+theorem shared_collector_witness :
+    let h1 : History Int := histOf intOps [(1, [⟨0, 0, []⟩])]
+    let h2 : History Int := histOf intOps [(1, [⟨0, 0, []⟩, ⟨0, 0, []⟩])]
+    pointCell (readStats (runAll [(7, h1), (7, h2)]) 7) 0 ⟨0, none⟩ 1 = .cnt 2 ∧ pointCell h1 0 ⟨0, none⟩ 1 = .cnt 1 ∧
+    collectorsDistinct [7, 7] none = false ∧ collectorsDistinct [1, 2] (some 1) = false ∧ collectorsDistinct [1, 2] (some 0) = true := by
+  decide
+
 /-- The full property: the aggregates over `Int` (wave 1), over every ordered field with the mean as a quotient
 (instantiated at ℚ), and the selection / format independence of the reported cells. -/
 def C13_mean_every_population : Prop :=
@@ -1357,6 +1433,8 @@ theorem C13_full_proved : C13_full :=
 #print axioms C13_rat
 #print axioms C13_full_proved
 #print axioms C13_selection_proved
+#print axioms reads_own
+#print axioms shared_collector_witness
 #print axioms key_collision_witness
 #print axioms mean_general
 #print axioms mean_is_arithmetic_iff
